@@ -116,6 +116,8 @@ def enum_verdict(enum):
     if enum.get("unspecified"):
         return UNSPEC, [enum["unspecified"]]
     probs = []
+    if enum.get("no_storage"):
+        return REJECT, ["unsupported-storage"]
     bits_text = enum.get("bits_text")
     n = enum["bits"]
     if bits_text is not None:
